@@ -455,7 +455,7 @@ def _replay(chk, path):
     if r.get('kind') == 'movie':
         cj = r['case']
         sr = tuple(Fraction(x) for x in cj['search_range']) if isinstance(cj['search_range'], list) else Fraction(cj['search_range'])
-        frames = [np.array(f, dtype=float).reshape(len(f), -1) for f in cj['frames']]
+        frames = linkgen.frames_from_json(cj['frames'])
         ndim = max([f.shape[1] for f in frames if f.size] or [2])
         frames = [f.reshape(len(f), ndim) for f in frames]
         c = dict(frames=frames, sr=sr, memory=cj['memory'], max_size=cj['max_size'], strategy=cj['link_strategy'], ndim=ndim)
